@@ -1,8 +1,8 @@
-"""R-NORMS (C17): installing a basis replaces or discards the steepest-edge norms of the algorithm that is going to run.
+"""R-NORMS (C17): installing a basis replaces or discards every norm array of the pricing record.
 The pricing record outlives a solve; its norm arrays have the dimension of the basis they were computed for.  In
-ILLsimplex, on every path from ILLbasis_load(lp, B) to ILLprice_build_pricing_info the norms of the running algorithm
-(dual: dsinfo.norms, primal: psinfo.norms) are either loaded from B or freed, so build_pricing_info never keeps an array
-that belongs to another basis.  The algorithm selector is only compared with constants: the flow is run once per value."""
+ILLsimplex, on every path from ILLbasis_load(lp, B) to ILLprice_build_pricing_info each of the four norm arrays (steepest
+edge and devex, primal and dual) is either loaded from B or freed, so neither build_pricing_info (which re-uses any non-NULL
+array of the rule in effect) nor the basis export (ILLlib_getrownorms) ever reads an array that belongs to another basis.  The algorithm selector is only compared with constants: the flow is run once per value."""
 from ..core import strip, is_var, callee, const_of, apath, fields_of, show, short_loc, Flow, AnalysisBroken
 from ..cond import atoms, SWAP
 from ..result import RuleResult, Violation
@@ -15,14 +15,18 @@ def _is_alg(t):
     return isinstance(t, list) and t and t[0] == "m" and t[2].endswith("::algorithm")
 
 
+KINDS = ("ds", "ps", "dd", "pd")
+KIND_TEXT = {"ds": "dual steepest-edge norms (dsinfo.norms)", "ps": "primal steepest-edge norms (psinfo.norms)",
+             "dd": "dual devex norms (ddinfo.norms)", "pd": "primal devex norms (pdinfo.norms)"}
+
+
 def _norm_field(t):
     fl = fields_of(apath(t)[2])
     if fl and fl[-1].endswith("::norms"):
         for x in fl:
-            if x.endswith("::dsinfo"):
-                return "ds"
-            if x.endswith("::psinfo"):
-                return "ps"
+            for k in KINDS:
+                if x.endswith("::%sinfo" % k):
+                    return k
     return None
 
 
@@ -34,33 +38,35 @@ def run(prog, prefix="mpq_", rule="R-NORMS"):
         viol = {}
 
         def xfer(b, i, e, st, av=av):
-            alg, loaded, ds, ps = st
+            alg, loaded, done = st
             if e[0] == "A":
                 side = _norm_field(e[1][2])
-                if side == "ds":
-                    return [(alg, loaded, True, ps)]
-                if side == "ps":
-                    return [(alg, loaded, ds, True)]
+                if side:
+                    return [(alg, loaded, done | {side})]
                 if _is_alg(e[1][2]) and e[1][1] == "=":
                     v = const_of(e[1][3])
-                    return [(v if v is not None else alg, loaded, ds, ps)]
+                    return [(v if v is not None else alg, loaded, done)]
                 return None
             if e[0] != "C":
                 return None
             n = callee(e[1])
             if n == prefix + "ILLbasis_load":
                 seen.add("load")
-                return [(alg, True, False, False)]
+                return [(alg, True, frozenset())]
             if n == prefix + "ILLprice_load_rownorms":
                 seen.add("rown")
-                return [(alg, loaded, True, ps)]
+                return [(alg, loaded, done | {"ds"})]
             if n == prefix + "ILLprice_load_colnorms":
                 seen.add("coln")
-                return [(alg, loaded, ds, True)]
+                return [(alg, loaded, done | {"ps"})]
+            if n == prefix + "ILLprice_free_pricing_info":
+                return [(alg, loaded, frozenset(KINDS))]
             if n == prefix + "ILLprice_build_pricing_info":
                 seen.add("build")
-                if loaded and ((alg == 2 and not ds) or (alg == 1 and not ps)):
-                    viol.setdefault((alg,), (e[1][4], b["id"], st))
+                if loaded:
+                    for k in KINDS:
+                        if k not in done:
+                            viol.setdefault((alg, k), (e[1][4], b["id"], st))
             return None
 
         def refine(cond, truth, st):
@@ -74,15 +80,15 @@ def run(prog, prefix="mpq_", rule="R-NORMS"):
                         if (o == "==" and v != alg) or (o == "!=" and v == alg):
                             return []
             return None
-        fl = Flow(prog, f, [(av, False, False, False)], xfer, refine).run()
-        res.obligations += 1
-        res.nontrivial += 1
+        fl = Flow(prog, f, [(av, False, frozenset())], xfer, refine).run()
+        res.obligations += len(KINDS)
+        res.nontrivial += len(KINDS)
         if viol:
-            for (alg,), (loc, bid, st) in viol.items():
-                which = "dual (dsinfo.norms)" if alg == 2 else "primal (psinfo.norms)"
-                res.violations.append(Violation(rule, "ILLsimplex|%s norms survive a basis load" % ("dual" if alg == 2 else "primal"), f.name, short_loc(loc),
-                                                "ILLprice_build_pricing_info is reached after ILLbasis_load on a path that neither loaded nor freed the %s "
-                                                "steepest-edge norms: an array computed for another basis (possibly of another dimension) is kept" % which,
+            for (alg, k), (loc, bid, st) in sorted(viol.items()):
+                res.violations.append(Violation(rule, "ILLsimplex|%s survive a basis load (%s simplex)" % (KIND_TEXT[k].split(" (")[0], "dual" if alg == 2 else "primal"), f.name, short_loc(loc),
+                                                "ILLprice_build_pricing_info is reached after ILLbasis_load on a path that neither loaded nor freed the %s: the array "
+                                                "was computed for another basis, possibly of another dimension (rows / columns added since), and is re-used as it is "
+                                                "by the pricing code and by the basis export" % KIND_TEXT[k],
                                                 path=fl.witness(bid, st)))
         else:
             res.sample({"algorithm": name, "verdict": "norms loaded or freed on every path from ILLbasis_load to ILLprice_build_pricing_info"})
